@@ -57,11 +57,11 @@ with open(HERE + '/SUMMARY.md', 'w') as f:
     for name, meta, cells in seeds:
         f.write(f"| {name} | {meta.get('property')} | {meta.get('what', '')} | " + "<br>".join(cells) + " |\n")
     f.write("\n## Behaviour-preserving refactorings (no check may raise an alarm)\n\n")
-    f.write("Ten refactorings written by a sub-agent (`EQ-README.md` argues why each is an exact equivalence; the existing "
+    f.write("Eighteen refactorings written by two sub-agents (`EQ-README.md`, `EQ-README-2.md` argue why each is an exact equivalence; the existing "
             "suite passes with each). `quiet` = exit 0, every obligation discharged on the refactored tree; `undecided` = "
             "exit 2, some obligation could not be decided on the new shape of the code (never an alarm); **ALARM** = a "
             "VIOLATION line, i.e. a false alarm of the machinery.\n\n")
     f.write("| patch | refactoring | outcome per property |\n|---|---|---|\n")
     for name, meta, cells in eqs:
-        f.write(f"| {name} | {readme.get(name[3:], '')} | " + "<br>".join(cells) + " |\n")
-print(open(HERE + '/SUMMARY.md').read()[-3000:])
+        f.write(f"| {name} | {readme.get(name[3:], '') or meta.get('what', '')} | " + "<br>".join(cells) + " |\n")
+print('written', HERE + '/SUMMARY.md')
